@@ -28,3 +28,35 @@ where
         .context("argument", argument)
         .context("cause", cause)
 }
+
+/// `sort_by` for comparison functions that are not a total order (values of unrelated types do
+/// not compare, which `slice::sort_by` is allowed to answer with a panic): a stable merge sort
+/// that returns a permutation of its input whatever `compare` answers.  For a consistent
+/// `compare` the result is the same as `slice::sort_by`.
+#[cfg(any(feature = "stdlib", feature = "jekyll"))]
+pub(crate) fn stable_sort_by<T, F>(mut values: Vec<T>, compare: &mut F) -> Vec<T>
+where
+    F: FnMut(&T, &T) -> std::cmp::Ordering,
+{
+    if values.len() <= 1 {
+        return values;
+    }
+    let right = values.split_off(values.len() / 2);
+    let left = stable_sort_by(values, compare);
+    let right = stable_sort_by(right, compare);
+
+    let mut merged = Vec::with_capacity(left.len() + right.len());
+    let mut left = left.into_iter().peekable();
+    let mut right = right.into_iter().peekable();
+    while let (Some(l), Some(r)) = (left.peek(), right.peek()) {
+        // take from the left on ties: stability
+        if compare(l, r) == std::cmp::Ordering::Greater {
+            merged.extend(right.next());
+        } else {
+            merged.extend(left.next());
+        }
+    }
+    merged.extend(left);
+    merged.extend(right);
+    merged
+}
